@@ -1,5 +1,6 @@
 import Heathcliff.Proofs.C14S
 import Heathcliff.Proofs.C14T
+import Heathcliff.Proofs.GenSerK
 /-
   C14  Serialization round-trips every object exactly, sizes exact, across contexts.
 
@@ -273,5 +274,131 @@ theorem validImpCtWF_refuted : type_of% @HC.Codec.c14t_validImpCtWF_refuted := @
 /-- converses of the elementary lemmas: fixed-length sequences and the compact polynomial codec accept exactly what fits -/
 theorem repC_valid_iff : type_of% @HC.Codec.c14t_repC_valid_iff := @HC.Codec.c14t_repC_valid_iff
 theorem polyC_valid_iff : type_of% @HC.Codec.c14t_polyC_valid_iff := @HC.Codec.c14t_polyC_valid_iff
+
+
+/-! ### translator phase 4i: the serializer SOURCE (src/serialize.rs, regenerated into Gen/SerFns.lean on every run) is the model
+    (Proofs/GenSer.lean writers, GenSerR.lean readers and sizes, GenSerL.lean compact-width helpers, GenSerP.lean these statements) -/
+
+/-- SOURCE WRITERS: on an in-memory stream every generated `serialize` (u64, usize, u8, bool, f64, Modulus, SchemeType, Vec<u64>,
+    Vec<Modulus>, ParmsID, EncryptionParameters, Plaintext, `write_u64_limited`) appends exactly `Codec.enc` and returns its length -/
+theorem gen_writers_produce_enc : type_of% @HC.GS.c14g_writers_produce_enc := @HC.GS.c14g_writers_produce_enc
+
+/-- SOURCE READERS: every generated `deserialize` is `Codec.dec`; `EncryptionParameters` = `paramsC.dec` followed by the count check of
+    `set_coeff_modulus` (a panic in the code); `read_u64_limited` = `limC.dec` for widths ≤ 8 on a stream of bytes -/
+theorem gen_readers_are_dec : type_of% @HC.GS.c14g_readers_are_dec := @HC.GS.c14g_readers_are_dec
+
+/-- SOURCE SIZES: every generated `serialized_size`, `get_u64_limit`, `Ciphertext::serialized_size / serialized_terms_size /
+    serialized_full_size` is the model's size function (`len_*`, `len_ct_rust`, … are about those) -/
+theorem gen_sizes_are_model : type_of% @HC.GS.c14g_sizes_are_model := @HC.GS.c14g_sizes_are_model
+
+/-- from source to source: generated `Plaintext::deserialize` ∘ generated `Plaintext::serialize` = identity, with continuation -/
+theorem gen_plain_source_round_trip : type_of% @HC.GS.c14g_plain_source_round_trip := @HC.GS.c14g_plain_source_round_trip
+
+/-- the same for `EncryptionParameters` with 1..64 coefficient moduli -/
+theorem gen_params_source_round_trip : type_of% @HC.GS.c14g_params_source_round_trip := @HC.GS.c14g_params_source_round_trip
+
+/-- the excluded point, as a theorem: a parameter object WITHOUT coefficient moduli is serialized, the model decodes it, the code's
+    reader refuses (panic in `set_coeff_modulus`) — the model's `paramsC` is more permissive than the code here -/
+theorem gen_params_empty_modulus_refused : type_of% @HC.GS.c14g_params_empty_modulus_refused := @HC.GS.c14g_params_empty_modulus_refused
+
+/-- `serialized_terms_size` of an empty unseeded ciphertext at a level with ≥ 1 modulus TRAPS in `upper - 1` (the model's closed form
+    returns a number there; cf. `c14s_TermsSizeStatement_false`) -/
+theorem gen_terms_size_traps_on_empty : type_of% @HC.GS.gr_ct_terms_size_traps := @HC.GS.gr_ct_terms_size_traps
+
+/-- the compact width from the SOURCE composed with the width rule: a residue below a `u64` modulus survives the generated
+    `write_u64_limited` / `read_u64_limited` pair exactly (bytes = model bytes, value back, rest untouched) -/
+theorem gen_limited_source_round_trip (q v : Nat) (hq : q < 2 ^ 64) (hv : v < q) (rest : Bytes) (hr : ∀ b ∈ rest, b < 256) :
+    ∃ w, HC.GenS.get_u64_limit q = .ok w ∧
+      HC.GenS.read_u64_limited w ((HC.GenS.write_u64_limited HC.GS.idealStream v w []).2 ++ rest) = .ok (v, rest) := by
+  refine ⟨u64Limit q, HC.GS.gr_get_u64_limit q hq, ?_⟩
+  have hw := u64Limit_width q v hv
+  have hwr := (HC.GS.c14g_writers_produce_enc []).2.2.2.2.2.2.2.2.2.2.2.2 v (u64Limit q) hw
+  rw [hwr]
+  simp only [List.nil_append]
+  have hb : ∀ b ∈ (limC (u64Limit q)).enc v ++ rest, b < 256 := by
+    intro b hb
+    rcases List.mem_append.mp hb with h | h
+    · have he : (limC (u64Limit q)).enc v = flat (seqChunks (List.replicate (u64Limit q) u8C) (leBytes (u64Limit q) v)) := rfl
+      rw [he] at h
+      exact HC.GS.gs_limC_enc_bytes _ _ b h
+    · exact hr b h
+  rw [HC.GS.gl_read_u64_limited _ (HC.GS.gl_u64Limit_le q hq) _ hb]
+  exact limited_round_trip q v hv rest
+
+/-- CIPHERTEXT LEVEL (skeleton readings: context lookup = the level, ciphertext = the view `CtV`): generated `Ciphertext::serialize_full`
+    on an in-memory stream appends exactly `ctFullC.enc` (seeded objects: `k·N + 1 + 8` words) and returns its length -/
+theorem gen_ct_serialize_full_produces_enc : type_of% @HC.GS.c14g_ct_serialize_full := @HC.GS.c14g_ct_serialize_full
+
+/-- COMPACT FORMAT (the format of `Ciphertext` / `PublicKey` and, item-wise, of key sets and `Cipher1d/2d/3d`): generated
+    `impl SerializableWithHeContext for Ciphertext :: serialize` — three nested loops, every coefficient through `write_u64_limited` with
+    the width `get_u64_limit(q_j)`, then the seed words — on an in-memory stream appends exactly `ctC.enc` and returns its length,
+    for every ciphertext of the level's shape (`CtShape`: counts, `k × N` coefficients, coefficients representable — e.g. reduced) -/
+theorem gen_ct_serialize_produces_enc : type_of% @HC.GS.c14g_ct_serialize := @HC.GS.c14g_ct_serialize
+
+/-- KEY SETS: generated `KSwitchKeys::serialize` (parms id, then the context-dependent `Vec<Vec<PublicKey>>`, each key through the compact
+    ciphertext writer; `RelinKeys` / `GaloisKeys` are the same function) appends exactly `kswitchC.enc`; a missing key is an empty inner
+    vector.  The generated code works on views of the keys: `PkView ctx v x` = "`v` is the view of the model ciphertext `x`, whose level the
+    context finds, with `u64` moduli, a real scheme and the level's shape" -/
+theorem gen_kswitch_serialize_produces_enc : type_of% @HC.GS.c14g_kswitch_serialize := @HC.GS.c14g_kswitch_serialize
+
+/-- reduced residues are representable (the `fit` clause of `CtShape` from `limit_width`) -/
+theorem gen_ct_shape_fit_of_reduced : type_of% @HC.GS.gd_fit_of_reduced := @HC.GS.gd_fit_of_reduced
+
+/-- its refusals: unknown parms id (panic) and shape mismatch (`InvalidData`) before anything is written; scheme `None` after 41 header bytes -/
+theorem gen_ct_serialize_full_refusals : type_of% @HC.GS.c14g_ct_serialize_full_refusals := @HC.GS.c14g_ct_serialize_full_refusals
+
+/-! non-vacuity of the phase-4i statements -/
+example : HC.GenS.plain_deserialize ((HC.GenS.plain_serialize HC.GS.idealStream ⟨[1, 2, 3, 4], [7, 8], 4607182418800017408⟩ []).2 ++ [9, 9])
+    = .ok (⟨[1, 2, 3, 4], [7, 8], 4607182418800017408⟩, [9, 9]) := by rfl
+example : (HC.GenS.params_serialize HC.GS.idealStream ⟨1, 8, [17, 257], 65537, true⟩ []) =
+    (.ok 42, [1, 8,0,0,0,0,0,0,0, 2,0,0,0,0,0,0,0, 17,0,0,0,0,0,0,0, 1,1,0,0,0,0,0,0, 1,0,1,0,0,0,0,0, 1]) := by rfl
+example : HC.GenS.params_deserialize (HC.GenS.params_serialize HC.GS.idealStream ⟨1, 8, [17, 257], 65537, true⟩ []).2
+    = .ok (⟨1, 8, [17, 257], 65537, true⟩, []) := by rfl
+example : HC.GenS.ct_serialized_size ⟨[⟨[1, 2, 3, 4], 3, 8, [17, 65537]⟩], 5, 8⟩ ⟨[1, 2, 3, 4], 2, true, 0, 1, false, [], fun _ => [], fun _ _ => [], 2, 8⟩ = .ok (32 + 8 + 1 + 8 + 1 + 2 * 8 * 1 + 2 * 8 * 3) := by rfl
+example : HC.GenS.ct_serialized_terms_size ⟨[⟨[1, 2, 3, 4], 1, 8, [17]⟩], 5, 8⟩ ⟨[1, 2, 3, 4], 0, true, 0, 1, false, [], fun _ => [], fun _ _ => [], 1, 8⟩ 3 = .error .overflow := by rfl
+/-- `serialize_full` of a seeded BGV ciphertext at a level with one modulus, N = 2: the hypotheses of `gen_ct_serialize_full_produces_enc`
+    hold and 32 + 8 + 1 + 8 + 8 + (2 + 1 + 8)·8 = 145 bytes are produced -/
+example :
+    let ctx : Ctx := ⟨[⟨[1, 2, 3, 4], 3, 2, [17]⟩], 5, 2⟩
+    let c : CtFull := ⟨[1, 2, 3, 4], 2, false, 4607182418800017408, 1, [3, 4, 18446744073709551615, 1, 2, 3, 4, 5, 6, 7, 8]⟩
+    let lv : Level := ⟨[1, 2, 3, 4], 3, 2, [17]⟩
+    ctx.find c.pid = some lv ∧ c.pid.length = 4 ∧ lv.scheme = 3 ∧ fullSent lv c = 11 ∧
+    (HC.GenS.ct_serialize_full HC.GS.idealStream ctx (HC.GS.ctvOfFull lv c) []).1 = .ok 145 := by
+  refine ⟨rfl, rfl, rfl, rfl, rfl⟩
+/-- compact format, seeded BFV ciphertext, two moduli (1 and 2 bytes wide), N = 2: `CtShape` holds and
+    32 + 8 + 1 + 1 + 2·1 + 2·2 + 64 = 112 bytes are produced, equal to the model's encoding -/
+example :
+    let ctx : Ctx := ⟨[⟨[1, 2, 3, 4], 1, 2, [17, 257]⟩], 5, 2⟩
+    let c : Ct := ⟨[1, 2, 3, 4], 2, true, 4607182418800017408, 1, [[[3, 16], [256, 7]]], [1, 2, 3, 4, 5, 6, 7, 8]⟩
+    let lv : Level := ⟨[1, 2, 3, 4], 1, 2, [17, 257]⟩
+    ctx.find c.pid = some lv ∧ HC.GS.CtShape lv c ∧
+    HC.GenS.ct_serialize HC.GS.idealStream ctx (HC.GS.ctvOfCt lv c) [] = (.ok 112, (ctC ctx (fun _ _ => [])).enc c) := by
+  refine ⟨rfl, ⟨rfl, ?_, ?_, rfl⟩, by rfl⟩
+  · intro p hp
+    have : p = [[3, 16], [256, 7]] := by simpa using hp
+    subst this
+    refine ⟨rfl, ?_⟩
+    intro comp hc
+    have : comp = [3, 16] ∨ comp = [256, 7] := by simpa using hc
+    rcases this with rfl | rfl <;> rfl
+  · intro p hp j hj x hx
+    have : p = [[3, 16], [256, 7]] := by simpa using hp
+    subst this
+    have hj2 : j < 2 := hj
+    match j, hj2 with
+    | 0, _ =>
+      have : x = 3 ∨ x = 16 := by simpa using hx
+      rcases this with rfl | rfl <;> decide
+    | 1, _ =>
+      have : x = 256 ∨ x = 7 := by simpa using hx
+      rcases this with rfl | rfl <;> decide
+/-- a key set with one present key (size-2 BFV ciphertext, one 1-byte modulus, N = 2) and one missing entry:
+    32 + 8 + (8 + (32 + 8 + 1 + 1 + 4)) + 8 = 102 bytes, equal to the model's encoding -/
+example :
+    let lv : Level := ⟨[1, 2, 3, 4], 1, 2, [17]⟩
+    let ctx : Ctx := ⟨[lv], 5, 2⟩
+    let c : Ct := ⟨[1, 2, 3, 4], 2, true, 4607182418800017408, 1, [[[3, 16]], [[5, 6]]], []⟩
+    HC.GenS.kswitch_serialize HC.GS.idealStream ctx ⟨[1, 2, 3, 4], [[HC.GS.ctvOfCt lv c], []]⟩ []
+      = (.ok 102, (kswitchC (ctC ctx (fun _ _ => []))).enc ⟨[1, 2, 3, 4], [[c], []]⟩) := by rfl
 
 end HC.C14
